@@ -225,9 +225,8 @@ StopCheck(m, d, g) ==
   ELSE LET t == m.t
            e1 == FileErrs(m.files[t.file], g.dirs)
            e2 == IF g.dirs[1].dl # FrameKinds[g.dirs[1].k].s + (IF g.want THEN MetaSz ELSE 0)
-                 THEN {IF g.want THEN "MetadataNotOnFirstFrame" ELSE "MetadataNotTheUsers"} ELSE {}
-           e3 == IF t.kind = "sbs" /\ g.want /\ m.files[200 + t.opath] # Cells(6, 0, MjSz) THEN {"MetadataJsonWrong"} ELSE {} IN
-       [m EXCEPT !.err = @ \cup e1 \cup (IF t.kind = "tiff" THEN e2 ELSE {}) \cup e3]
+                 THEN {IF g.want THEN "MetadataNotOnFirstFrame" ELSE "MetadataNotTheUsers"} ELSE {} IN
+       [m EXCEPT !.err = @ \cup e1 \cup (IF t.kind = "tiff" THEN e2 ELSE {})]
 
 \* ---- HAL-level actions -----------------------------------------------------------------------------------------------
 Label(op, d, arg, sw) == [op |-> op, d |-> d, arg |-> arg, sw |-> sw, st |-> 0, os |-> <<>>]
@@ -263,7 +262,10 @@ DoSet(d, meta) ==
 DoStart(d, sc) ==
   /\ dev[d].open /\ Hal(dev[d]) = ARMED /\ dev[d].cyc < Lim(d).cyc /\ gh[d].fresh
   /\ LET t == [dev[d] EXCEPT !.cyc = @ + 1, !.napp = 0]
-         m == IF t.kind = "sbs" THEN SStartV(TMachine(os, sc, t), d) ELSE TStart(TMachine(os, sc, t), d)
+         m0 == IF t.kind = "sbs" THEN SStartV(TMachine(os, sc, t), d) ELSE TStart(TMachine(os, sc, t), d)
+         \* tiff-json: a started acquisition has the user's metadata in metadata.json
+         m == IF Ghost /\ t.kind = "sbs" /\ ~m0.overflow /\ m0.st = RUNNING /\ gh[d].want /\ m0.files[200 + t.opath] # Cells(6, 0, MjSz)
+              THEN Bad(m0, "MetadataJsonWrong") ELSE m0
          g == [gh[d] EXCEPT !.dirs = <<>>, !.clean = (m.st = RUNNING), !.pend = (m.failed /\ m.st = RUNNING), !.fresh = FALSE, !.nf = 0] IN
      Commit(m, d, HalStore(m), g, Label("start", d, <<>>, sc))
   /\ UNCHANGED used
@@ -283,7 +285,7 @@ DoStop(d, sc) ==
   /\ dev[d].open /\ Hal(dev[d]) = RUNNING
   /\ LET m0 == IF dev[d].kind = "sbs" THEN SStopV(TMachine(os, sc, dev[d]), d) ELSE TStopV(TMachine(os, sc, dev[d]), d)
          m == IF m0.overflow THEN m0 ELSE StopCheck(m0, d, gh[d]) IN
-     Commit(m, d, HalStore(m), [gh[d] EXCEPT !.clean = FALSE], Label("stop", d, <<>>, sc))
+     Commit(m, d, HalStore(m), [gh[d] EXCEPT !.clean = FALSE, !.dirs = <<>>], Label("stop", d, <<>>, sc))
   /\ UNCHANGED used
 
 \* storage_close: storage_stop when Running, then the driver destroys the device
